@@ -12,7 +12,8 @@ KindFilter == (lastAct'.k \in {"peer_send", "dl_send", "agent_send"}) => lastAct
 PathsA == << <<"n2", "l1">>, <<"n2", "l1">>, <<"n2", "l2">>, <<"n1", "l2">> >>     \* two downlinks share a lane, one on a sibling lane
 PathsB == << <<"n1", "l1">>, <<"n2", "l1">>, <<"n1", "l2">>, <<"n2", "l2">> >>     \* same lane name on two nodes, two lanes of one node
 PathsC == << <<"n1", "l1">>, <<"n1", "l1">>, <<"n1", "l2">>, <<"n2", "l2">> >>     \* as A, on a node that also has an agent
-DlPath == IF PathSel = "A" THEN PathsA ELSE IF PathSel = "B" THEN PathsB ELSE PathsC
+PathsD == << <<"n1", "l1">>, <<"n1", "l1">>, <<"n1", "l2">>, <<"n2", "l1">> >>     \* shared lane + sibling lane + another node
+DlPath == IF PathSel = "A" THEN PathsA ELSE IF PathSel = "B" THEN PathsB ELSE IF PathSel = "C" THEN PathsC ELSE PathsD
 \* downlinks attach in order of their ids (symmetry), to their configured path, and write to it
 DlScript == /\ (lastAct'.k = "attach_req") =>
                  /\ <<lastAct'.node, lastAct'.lane>> = DlPath[lastAct'.d]
@@ -24,6 +25,21 @@ DlScript == /\ (lastAct'.k = "attach_req") =>
             /\ (lastAct'.k = "dl_send") => <<lastAct'.msg.node, lastAct'.msg.lane>> = DlPath[lastAct'.d]
 \* reading from a channel commutes with everything else: do it first (partial-order reduction by hand)
 Urgent == (\E s \in Srcs : inbox[s] # <<>> /\ ~SrcGone(s)) => lastAct'.k = "recv"
+
+\* "settled" exploration (ACTION_CONSTRAINT): the task finishes whatever it can do before the environment
+\* moves again.  Together with TblView (no counters: the socket is always drained, so the space is finite
+\* without bounds) the reachable states are exactly the settled states of the routing tables - entry absent /
+\* one lane / two lanes / stale writer in an entry / lane emptied / node emptied, per node - and a cover of
+\* this graph's transitions is a cover of every table update the incoming half can perform.
+TaskCanStep == \/ ~closed /\ \/ pendIn # <<>> \/ pendOut # <<>> \/ resolving # NoMsg \/ sys # <<>>
+                             \/ wireIn # <<>>
+                             \/ \E s \in regOut : out[s] # <<>>
+               \/ \E s \in regOut : out[s] = <<>> /\ SrcGone(s)
+               \/ \E d \in Dls : dl[d].st = "req" /\ d \in inDone /\ d \in outDone
+Settled == TaskCanStep => lastAct'.k \in {"reg_in", "reg_out", "route", "find", "wire_out", "mux_end", "attach_done"}
+TblView == <<subs, routes, inst, alive, dl, pendIn, pendOut, inDone, outDone, regOut, out, inbox, sys, wireIn, resolving, closed>>
+TblEdgeDump == PrintT(<<"EDGE", ToJson([s |-> TblView, a |-> lastAct', t |-> TblView'])>>)
+TblInitDump == (lastAct.k = "init") => PrintT(<<"INIT", ToJson(TblView)>>)
 
 \* state graph dump (lastAct hidden by the VIEW)
 EdgeDump == PrintT(<<"EDGE", ToJson([s |-> View, a |-> lastAct', t |-> View'])>>)
